@@ -660,7 +660,16 @@ func (m *machine) fieldCell(c *cell, idx int) *cell {
 			c.fields[idx] = fc
 			return fc
 		}
-		if c.sym != "" {
+		if c.sym != "" && embeddedPart(f) {
+			// a struct embedded by value is transparent in names: its fields are named as if they were the parent's
+			fc.sym = c.sym
+			key := c.sym + ".(" + f.Name() + ")"
+			if old, ok := m.out.cells[key]; ok {
+				fc = old
+			} else {
+				m.out.cells[key] = fc
+			}
+		} else if c.sym != "" {
 			fc.sym = c.sym + "." + f.Name()
 			if old, ok := m.out.cells[fc.sym]; ok {
 				fc = old
@@ -1443,6 +1452,12 @@ func (m *machine) builtin(name string, args []AV, cc *ssa.CallCommon) []AV {
 		return nil
 	case "copy", "cap", "delete", "print", "println", "min", "max":
 		return []AV{avOpaque{name}}
+	case "ssa:wrapnilchk":
+		// the nil check of a pointer receiver in the wrapper of a value-receiver method: the pointer itself
+		if p, ok := args[0].(avPtr); ok && p.c == nil {
+			panic(goPanic{avStr{isC: true, conc: "value method called using nil pointer"}})
+		}
+		return []AV{args[0]}
 	}
 	m.fail("unmodelled builtin %s", name)
 	return nil
